@@ -149,7 +149,8 @@ RECURSIVE PhredDown(_, _, _)
 PhredDown(p, q, lo) == IF q < lo THEN TIE
                        ELSE LET c == Cmp(p, Pow20(1 - 2 * q)) IN
                             IF c = 1 THEN PhredDown(p, q - 1, lo) ELSE IF c = 0 THEN TIE ELSE q
-PhredOfProb(p) == PhredDown(p, -10 * p[2], -10 * (p[2] + 1))
+PhredOfProb(p) == IF p[2] < -26 THEN 260                    \* beyond the finite scores
+                  ELSE PhredDown(p, -10 * p[2], -10 * (p[2] + 1))
 
 ProbSTab == [k \in -263..263 |-> ProbS(k)]
 \* round(-10 log10(p/(1-p))): the largest s with p <= 1/(1+10^((2s-1)/20))
@@ -158,7 +159,7 @@ SolexaDown(p, s, lo) == IF s < lo THEN TIE
                         ELSE LET c == Cmp(p, ProbSTab[2 * s - 1]) IN
                              IF c = 1 THEN SolexaDown(p, s - 1, lo) ELSE IF c = 0 THEN TIE ELSE s
 SolexaOfProb(p) == IF p[2] >= -1 THEN SolexaDown(p, 11, -51)
-                   ELSE IF p[2] < -13 THEN 127               \* beyond the finite scores
+                   ELSE IF p[2] < -13 THEN 140               \* beyond the finite scores
                    ELSE SolexaDown(p, -10 * p[2] + 1, -10 * (p[2] + 1) - 1)
 \* of the probability 1 - c: the analytic function is odd in the log odds
 SolexaOfComp(c) == LET s == SolexaOfProb(c) IN IF s = TIE THEN TIE ELSE -s
